@@ -177,4 +177,20 @@ def expectedMms (h : Hints) (recs : List Rec) : List GMM :=
     | .mm g _ => if on h.odh OtherDataHintsMask.malformed_messages && g.anySome then some g else none
     | _ => none
 
+/-! ### address event counts -/
+
+/-- the generic key a stored address-event entry stands for -/
+def resolveA (b : Blk) (a : AEC) : Option GAEC :=
+  (b.ip[a.ai]?).map fun ip => { aeType := a.aeType, aeCode := a.aeCode, transportFlags := a.tf, ip := ip }
+
+/-- total count stored for a generic key -/
+def countFor (b : Blk) (k : GAEC) : Nat :=
+  ((b.aecs.filter fun e => decide (resolveA b e.1 = some k)).map (·.2)).sum
+
+/-- how often a key was buffered (address events are counted only while their hint is on) -/
+def timesBuffered (h : Hints) (recs : List Rec) (k : GAEC) : Nat :=
+  if on h.odh OtherDataHintsMask.address_event_counts then
+    (recs.filter fun r => match r with | .aec g _ => decide (g = k) | _ => false).length
+  else 0
+
 end CdnsVerif.Model.Builder
